@@ -4,7 +4,8 @@
 export GOFLAGS=-mod=mod GOPROXY=off GOSUMDB=off GOTOOLCHAIN=local
 REPO=${VERIF_REPO:-/repo}
 OUT=$(mktemp)
-(cd "$REPO" && go test -mod=mod -json -vet=off -count=1 -timeout 25m ./... > "$OUT" 2>/dev/null)
+T=$(mktemp -d /tmp/baseline-XXXXXX)     # the suite leaves directories in TMPDIR: give it one of its own
+(cd "$REPO" && TMPDIR="$T" go test -mod=mod -json -vet=off -count=1 -timeout 25m ./... > "$OUT" 2>/dev/null)
 python3 - "$OUT" <<'PY'
 import json,sys
 passed=set()
@@ -20,5 +21,5 @@ for t in missing[:20]: print("MISSING", t)
 sys.exit(1 if missing else 0)
 PY
 rc=$?
-rm -f "$OUT"
+rm -rf "$OUT" "$T"
 exit $rc
